@@ -572,6 +572,12 @@ def judge_c10(rec, barrier_only=False):
                     out.append(V('not-first-failure', 'not-first-failure:%s' % shape,
                                  'workchain EXCEPTED with %s but the first failure was %s' % (exc, fails[0])))
         break
+    # the completion of an awaited item is taken in by the barrier whatever came before it: it does not blow up in the event loop
+    for err in rec.get('loop_errors') or ():
+        if '_awaitable_done' in err['message'] or 'awaitable' in str(err['exception']):
+            out.append(V('completion-raised-in-loop', 'completion-raised-in-loop:%s' % str(err['exception']).split('(')[0],
+                         'the completion of an awaited item raised in its event-loop callback: %s: %s (acts %s)' % (err['message'][:160], err['exception'], pat)))
+            break
     return _dedupe(out)
 
 
